@@ -14,6 +14,35 @@ pub mod object;
 
 pub struct RawUnprocessedJSONArray;
 impl RawUnprocessedJSONArray {
+    // `first_bytes` holds the byte just read; if it starts a multi-byte utf-8 sequence the
+    // remaining bytes of the character are read as well
+    fn complete_char(cursor: &mut io::Cursor<String>, first_bytes: Vec<u8>, bytes_read: &mut i128) -> Result<char, String> {
+        let mut buffer = first_bytes;
+        let first_byte = *buffer.get(0).unwrap_or(&0);
+        let mut remaining = 0;
+        if first_byte >= 0xF0 { remaining = 3 } else if first_byte >= 0xE0 { remaining = 2 } else if first_byte >= 0xC0 { remaining = 1 }
+        if remaining > 0 {
+            let mut continuation = vec![0; remaining];
+            let boxed_read = cursor.read_exact(&mut continuation);
+            if boxed_read.is_err() {
+                let message = boxed_read.err().unwrap().to_string();
+                return Err(message);
+            }
+            *bytes_read = *bytes_read + remaining as i128;
+            buffer.append(&mut continuation);
+        }
+        let boxed_string = String::from_utf8(buffer);
+        if boxed_string.is_err() {
+            let message = boxed_string.err().unwrap().to_string();
+            return Err(message);
+        }
+        let boxed_char = boxed_string.unwrap().chars().last();
+        if boxed_char.is_none() {
+            return Err("unable to read a character".to_string());
+        }
+        Ok(boxed_char.unwrap())
+    }
+
     pub fn split_into_vector_of_strings(_json_string: String) -> Result<Vec<String>, String> {
         let mut list : Vec<String> = vec![];
 
@@ -49,7 +78,7 @@ impl RawUnprocessedJSONArray {
                 let message = format!("not proper start of the json array: {}", _json_string.to_string());
                 return Err(message);
             }
-            let char = String::from_utf8(char_buffer).unwrap().chars().last().unwrap();
+            let char = match RawUnprocessedJSONArray::complete_char(&mut cursor, char_buffer, &mut bytes_read) { Ok(c) => c, Err(message) => return Err(message) };
 
             if !char.is_whitespace() && char != '['{
                 let message = format!("input string does not start with opening square bracket: {} in {}", char, _json_string);
@@ -77,7 +106,7 @@ impl RawUnprocessedJSONArray {
             }
             boxed_read.unwrap();
             bytes_read = bytes_read + length as i128;
-            let mut char = String::from_utf8(char_buffer).unwrap().chars().last().unwrap();
+            let mut char = match RawUnprocessedJSONArray::complete_char(&mut cursor, char_buffer, &mut bytes_read) { Ok(c) => c, Err(message) => return Err(message) };
 
             if char == ']' {
                 is_end_of_array = true;
@@ -101,7 +130,7 @@ impl RawUnprocessedJSONArray {
                         boxed_read.unwrap();
                         let length = char_buffer.len();
                         bytes_read = bytes_read + length as i128;
-                        let _char = String::from_utf8(char_buffer).unwrap();
+                        let _char = match RawUnprocessedJSONArray::complete_char(&mut cursor, char_buffer, &mut bytes_read) { Ok(c) => c.to_string(), Err(message) => return Err(message) };
                         let last_char_in_buffer = token.chars().last().unwrap().to_string();
                         not_end_of_string_property_value = _char != "\"" && last_char_in_buffer != "\\";
                         token = [token, _char.to_string()].join(SYMBOL.empty_string);
@@ -123,7 +152,7 @@ impl RawUnprocessedJSONArray {
                             }
                             boxed_read.unwrap();
                             bytes_read = bytes_read + length as i128;
-                            char = String::from_utf8(char_buffer).unwrap().chars().last().unwrap();
+                            char = match RawUnprocessedJSONArray::complete_char(&mut cursor, char_buffer, &mut bytes_read) { Ok(c) => c, Err(message) => return Err(message) };
 
                             if char == ',' {
                                 read_till_end_of_whitespace = false
@@ -154,7 +183,7 @@ impl RawUnprocessedJSONArray {
                     }
                     boxed_read.unwrap();
                     bytes_read = bytes_read + length as i128;
-                    let remaining_bool = String::from_utf8(char_buffer).unwrap();
+                    let remaining_bool = String::from_utf8_lossy(&char_buffer).to_string();
                     if remaining_bool != "ull" {
                         let message = format!("Unable to parse null: {} in {}", remaining_bool, _json_string);
                         return Err(message)
@@ -177,7 +206,7 @@ impl RawUnprocessedJSONArray {
                     }
                     boxed_read.unwrap();
                     bytes_read = bytes_read + length as i128;
-                    let remaining_bool = String::from_utf8(char_buffer).unwrap();
+                    let remaining_bool = String::from_utf8_lossy(&char_buffer).to_string();
                     if remaining_bool != "rue" {
                         let message = format!("Unable to parse true: {} in {}", remaining_bool, _json_string);
                         return Err(message)
@@ -200,7 +229,7 @@ impl RawUnprocessedJSONArray {
                     }
                     boxed_read.unwrap();
                     bytes_read = bytes_read + length as i128;
-                    let remaining_bool = String::from_utf8(char_buffer).unwrap();
+                    let remaining_bool = String::from_utf8_lossy(&char_buffer).to_string();
                     if remaining_bool != "alse" {
                         let message = format!("Unable to parse false: {} in {}", remaining_bool, _json_string);
                         return Err(message)
@@ -217,6 +246,7 @@ impl RawUnprocessedJSONArray {
                     let mut number_of_closed_square_brackets = 0;
 
                     let mut read_nested_array = true;
+                    let mut is_inside_string = false;
                     while read_nested_array {
 
                         let byte = 0;
@@ -229,15 +259,19 @@ impl RawUnprocessedJSONArray {
                         }
                         boxed_read.unwrap();
                         bytes_read = bytes_read + length as i128;
-                        let char = String::from_utf8(char_buffer).unwrap().chars().last().unwrap();
+                        let char = match RawUnprocessedJSONArray::complete_char(&mut cursor, char_buffer, &mut bytes_read) { Ok(c) => c, Err(message) => return Err(message) };
 
-                        let is_open_square_bracket = char == '[';
+                        if char == '"' && !token.ends_with('\\') {
+                            is_inside_string = !is_inside_string;
+                        }
+
+                        let is_open_square_bracket = char == '[' && !is_inside_string;
                         if is_open_square_bracket {
                             number_of_open_square_brackets = number_of_open_square_brackets + 1;
                         }
 
 
-                        let is_close_square_bracket = char == ']';
+                        let is_close_square_bracket = char == ']' && !is_inside_string;
                         if is_close_square_bracket {
                             number_of_closed_square_brackets = number_of_closed_square_brackets + 1;
                         }
@@ -260,6 +294,7 @@ impl RawUnprocessedJSONArray {
                     let mut number_of_closed_curly_braces = 0;
 
                     let mut read_nested_object = true;
+                    let mut is_inside_string = false;
                     while read_nested_object {
 
                         let byte = 0;
@@ -272,15 +307,19 @@ impl RawUnprocessedJSONArray {
                         }
                         boxed_read.unwrap();
                         bytes_read = bytes_read + length as i128;
-                        let char = String::from_utf8(char_buffer).unwrap().chars().last().unwrap();
+                        let char = match RawUnprocessedJSONArray::complete_char(&mut cursor, char_buffer, &mut bytes_read) { Ok(c) => c, Err(message) => return Err(message) };
 
-                        let is_open_curly_brace = char == '{';
+                        if char == '"' && !token.ends_with('\\') {
+                            is_inside_string = !is_inside_string;
+                        }
+
+                        let is_open_curly_brace = char == '{' && !is_inside_string;
                         if is_open_curly_brace {
                             number_of_open_curly_braces = number_of_open_curly_braces + 1;
                         }
 
 
-                        let is_close_curly_brace = char == '}';
+                        let is_close_curly_brace = char == '}' && !is_inside_string;
                         if is_close_curly_brace {
                             number_of_closed_curly_braces = number_of_closed_curly_braces + 1;
                         }
@@ -334,7 +373,7 @@ impl RawUnprocessedJSONArray {
                         }
                         boxed_read.unwrap();
                         bytes_read = bytes_read + length as i128;
-                        char = String::from_utf8(char_buffer).unwrap().chars().last().unwrap();
+                        char = match RawUnprocessedJSONArray::complete_char(&mut cursor, char_buffer, &mut bytes_read) { Ok(c) => c, Err(message) => return Err(message) };
 
                         let is_numeric = char.is_numeric();
 
@@ -381,7 +420,7 @@ impl RawUnprocessedJSONArray {
                                 }
                                 boxed_read.unwrap();
                                 bytes_read = bytes_read + length as i128;
-                                char = String::from_utf8(char_buffer).unwrap().chars().last().unwrap();
+                                char = match RawUnprocessedJSONArray::complete_char(&mut cursor, char_buffer, &mut bytes_read) { Ok(c) => c, Err(message) => return Err(message) };
 
                                 if char == ',' {
                                     read_till_end_of_whitespace = false
@@ -458,7 +497,7 @@ impl RawUnprocessedJSONArray {
             }
             boxed_read.unwrap();
             bytes_read = bytes_read + length as i128;
-            let char = String::from_utf8(char_buffer).unwrap().chars().last().unwrap();
+            let char = match RawUnprocessedJSONArray::complete_char(&mut cursor, char_buffer, &mut bytes_read) { Ok(c) => c, Err(message) => return Err(message) };
 
             if !char.is_whitespace(){
                 let message = format!("after array there are some characters: {} in {}", char, _json_string);
